@@ -45,6 +45,7 @@ tables, shapes the search does not understand -- ends the run undecided (exit 2)
 from __future__ import annotations
 
 import ast
+import struct
 
 import networkx as nx
 
@@ -470,6 +471,57 @@ class Core:
         if n_true == 0:
             return None
         return "`%s = True` is only set next to a drain of the collection and `%s` leaves when it stayed False" % (flag, _u(guard.test, 40))
+
+    # ------------------------------------------------------------------ index-driven unpacking of a byte buffer
+    def slice_checked(self, f: Func, node, it: ast.Call):
+        """`for i in range(a, b, step>0): ... X.unpack(B[i:i + s]) ...` with s == calcsize(fmt) >= 1 executed on every
+        iteration (top level of the body / the comprehension element): struct raises as soon as i passes len(B) - s, so the
+        loop runs at most len(B)/step + 1 times whatever the declared count."""
+        step = 1
+        if len(it.args) == 3:
+            v = self.b.fold(it.args[2], f)
+            if not isinstance(v, int) or v < 1:
+                return None
+            step = v
+        if isinstance(node, (ast.For, ast.AsyncFor)):
+            if not isinstance(node.target, ast.Name):
+                return None
+            var = node.target.id
+            tops = [s.value for s in node.body if isinstance(s, (ast.Expr, ast.Assign)) and getattr(s, "value", None) is not None]
+            if any(isinstance(x, ast.Continue) for x in own_nodes(node)):
+                return None
+        else:
+            gens = [g for g in node.generators if g.iter is it]
+            if len(gens) != 1 or not isinstance(gens[0].target, ast.Name) or gens[0].ifs or node.generators[-1] is not gens[0]:
+                return None
+            var = gens[0].target.id
+            tops = [node.key, node.value] if isinstance(node, ast.DictComp) else [node.elt]
+        for top in tops:
+            for n in ast.walk(top):
+                if isinstance(n, ast.Call) and CallGraph._is_unpack_call(n) and n.args:
+                    # not inside a conditional expression / lambda of the element
+                    p_, ok = parent(n), True
+                    while p_ is not None and p_ is not top:
+                        if isinstance(p_, (ast.IfExp, ast.Lambda, ast.BoolOp)):
+                            ok = False
+                        p_ = parent(p_)
+                    fmt = self.b.unpack_fmt(n, f)
+                    if not ok or fmt is None:
+                        continue
+                    try:
+                        size = struct.calcsize(fmt)
+                    except struct.error:
+                        continue
+                    arg = n.args[-1]
+                    if size >= 1 and isinstance(arg, ast.Subscript) and isinstance(arg.slice, ast.Slice) and arg.slice.step is None \
+                            and isinstance(arg.slice.lower, ast.Name) and arg.slice.lower.id == var and arg.slice.upper is not None \
+                            and isinstance(arg.value, (ast.Name, ast.Attribute)) and dotted(arg.value) not in _assigned_names(node):
+                        up = arg.slice.upper
+                        if isinstance(up, ast.BinOp) and isinstance(up.op, ast.Add) and isinstance(up.left, ast.Name) and up.left.id == var \
+                                and self.b.fold(up.right, f) == size:
+                            return "every iteration unpacks the %d bytes `%s`: struct raises once the index passes the end of the buffer (step %d)" % (
+                                size, _u(arg, 40), step)
+        return None
 
     # ------------------------------------------------------------------ provenance of a trip count
     def count_is_input(self, f: Func, it: ast.Call):
@@ -1658,6 +1710,10 @@ def _check_range(core, sink, f, node, it, lab, k1, undecided, witness):
         sink.ob("for/bounded-count", inst, True, "%s: %s" % (cls, detail))
         return
     sink.count("range_input_counted")
+    sc = core.slice_checked(f, node, it)
+    if sc:
+        sink.check("for/input-counted", inst, True, f, lab, "", node=node, detail="input-counted (%s); K1 -- %s" % (detail, sc))
+        return
     cert = k1()
     if cert:
         sink.check("for/input-counted", inst, True, f, lab, "", node=node, detail="input-counted (%s); %s -- %s" % (detail, cert.kind, cert.detail))
@@ -1850,7 +1906,7 @@ def run(ctx):
     ctx.floor("while_loops_in_scope", 10)
     ctx.floor("range_loops", 28)
     ctx.floor("range_input_counted", 18)
-    ctx.floor("recursive_sccs", 1)
+    ctx.floor("recursive_sccs", 0)   # the one stream recursion of today's tree may legitimately be rewritten as a loop; teeth: fixture rec_*
     ctx.floor("closure_functions", 150)
     if undecided:
         for inst, why in undecided:
